@@ -389,6 +389,8 @@ func propC19(c *Ctx) {
 	defer func() {
 		rcv := c.Rule("call-vm", "every Call value built by a method of VM or Invoker carries the VM (builtins and stdlib functions run script callbacks on it and poll it for Abort)", 3)
 		ruleCallVM(c, rcv)
+		rfi := c.Rule("field-init", "library objects whose interface- or pointer-typed field is used without a nil test are completely built by the functions that hand them out (every path from the allocation to a successful return stores the field)", 1)
+		ruleFieldInit(c, rfi)
 	}()
 	rg := c.Rule("get-bound", "every (*Call).Get(k) is reached only in states where k < c.Len() follows from CheckLen, comparisons / switch on c.Len(), shift() and loop conditions (interval analysis per Call value, constant-parameter summaries for helpers)", 100)
 	ruleGetBound(c, rg, fns)
